@@ -169,6 +169,19 @@ def updVar (K : Nat) (gammas : List Vec) (data : List Rat) : Vec :=
   tab K (fun i => sumT (gammas.zip data) (fun p => atR p.1 i * ((p.2 - atR m i) * (p.2 - atR m i)))
     / sumT gammas (fun g => atR g i))
 
+/-- The parameters are probability weights and the emission densities positive (what a
+    Gaussian-emission model hands to `forward_backward`): `π ≥ 0` with a positive total, `A ≥ 0` with a
+    positive total in every row, every `B[t][j] > 0`.  (Totals need not be exactly one: the doubles
+    the code holds are normalised only up to rounding.) -/
+def posModel (K : Nat) (pi : Nat → Rat) (A : Nat → Nat → Rat) (B : List Vec) : Bool :=
+  (List.range K).all (fun i => decide (0 ≤ pi i)) && decide (0 < sumK K pi) &&
+  (List.range K).all (fun i => (List.range K).all (fun j => decide (0 ≤ A i j)) && decide (0 < sumK K (A i))) &&
+  B.all (fun b => (List.range K).all (fun j => decide (0 < atR b j)))
+
+/-- `gamma[:-1].sum(axis=0)[i]`: the occupancy of state `i` before the last time point (the
+    denominator of row `i` of the updated transition matrix). -/
+def occupancy (gammas : List Vec) (i : Nat) : Rat := sumT gammas.dropLast (fun g => atR g i)
+
 /-! ## `HiddenMarkovModel.__init__` argument checks -/
 
 inductive Guess where
@@ -314,6 +327,9 @@ def AdjDiff : List Run → Prop
 /-- Writing every run out again. -/
 def expand (rs : List Run) : List Int := rs.flatMap (fun r => List.replicate (r.stop - r.start) r.state)
 
+/-- The number of samples covered by all returned dwells together (`Σ_state Σ dwell_counts[state]`). -/
+def totalCounts (d : List (Int × List (Nat × Nat))) : Int := (d.map (fun e => (dwellCounts e.2).sum)).sum
+
 /-- `Σ_j ξ(i, j)` for every `i`. -/
 def rowSums (K : Nat) (x : List Vec) : Vec := tab K (fun i => sumK K (atR (x.getD i [])))
 
@@ -418,7 +434,14 @@ def handle : List String → Option String
           some (showList showR (r.steps.map (·.c)) ++ " " ++ showListList showR r.gammas ++ " "
             ++ showListList showR (r.xis.map List.flatten) ++ " " ++ showList showR (updPi r.gammas) ++ " "
             ++ showListList showR (updA K r.gammas r.xis) ++ " " ++ showList showR (updMean K r.gammas data)
-            ++ " " ++ showList showR (updVar K r.gammas data))
+            ++ " " ++ showList showR (updVar K r.gammas data)
+            -- the hypotheses / conclusions of `scaling_positive`, `posteriors_nonneg`, `occupancy_positive`
+            ++ " " ++ showBool (posModel K (atR pi) (fnOfRows A) B)
+            ++ " " ++ showBool (r.steps.all (fun s => decide (0 < s.c)))
+            ++ " " ++ showBool (r.gammas.all (fun g => (List.range K).all (fun i => decide (0 ≤ atR g i)))
+                && r.xis.all (fun x => (List.range K).all (fun i => (List.range K).all (fun j =>
+                  decide (0 ≤ atR (x.getD i []) j)))))
+            ++ " " ++ showBool ((List.range K).all (fun i => decide (atR pi i ≤ 0) || decide (0 < occupancy r.gammas i))))
   | ["c16.dwell", path, ex] => do
     let path ← listOf? label? path
     let ex ← bool? ex
